@@ -218,8 +218,16 @@ def RenderExpr(e):
   if k == 'sub':
     return '%s.%s' % (RenderExpr(e['e']), e['f'])
   if k == 'if':
-    return '(if %s then %s else %s)' % (RenderExpr(e['c']), RenderExpr(e['t']),
-                                        RenderExpr(e['f']))
+    # `if a then b else if c then d else e` (one chain) when the else branch
+    # is marked as a continuation, a parenthesised nested `if` otherwise
+    parts = ['if %s then %s' % (RenderExpr(e['c']), RenderExpr(e['t']))]
+    rest = e['f']
+    while rest.get('k') == 'if' and rest.get('chain'):
+      parts.append('else if %s then %s' % (RenderExpr(rest['c']),
+                                           RenderExpr(rest['t'])))
+      rest = rest['f']
+    parts.append('else %s' % RenderExpr(rest))
+    return '(' + ' '.join(parts) + ')'
   if k == 'pcall':
     return '%s(%s)' % (e['p'], RenderArgs(e['args']))
   if k == 'agg':
